@@ -548,11 +548,48 @@ def run_a2(C, M, ctx: Ctx, limit: int, workdir: str, options) -> T.List[T.Tuple[
 
 # ------------------------------------------------------------------ path b: real `meson test`
 
+def sticky_cases(C) -> T.List[dict]:
+    """the streams of c18_state.sticky_items (one-shot errors, flags, counters, TAP version) as program output"""
+    from . import c18_state
+    out = []
+    for items in c18_state.sticky_items(C):
+        lines = [BLine(it.text.encode('utf-8'), it, it.kind == 'test') for it in items]
+        out.append({'lines': lines, 'terms': [b'\n'] * len(lines), 'data': b''.join(bl.raw + b'\n' for bl in lines),
+                    'long_idx': None})
+    return out
+
+
+def result_class(want: dict, rc: int) -> T.Set[str]:
+    """the classification rule of the property on the reference consumer's reading of the stream"""
+    bad_sub = any(t[2] in ('FAIL', 'UNEXPECTEDPASS') for t in want['tests'])
+    err = bool(want['errors']) or bool(want['bails'])
+    if bad_sub and err:
+        return {'FAIL', 'ERROR'}
+    if bad_sub:
+        return {'FAIL'}
+    if err or rc != 0:
+        return {'ERROR'}
+    return {'SKIP'} if all(t[2] == 'SKIP' for t in want['tests']) else {'OK'}
+
+
 def run_b(C, M, ctx: Ctx, limit: int, workdir: str, jobs) -> None:
     src = os.path.join(workdir, 'src')
     bld = os.path.join(workdir, 'bld')
     os.makedirs(src, exist_ok=True)
     sample = jobs[:ctx.scale(14, 60)]
+    # several protocol:'tap' tests in ONE `meson test` run: every state-exercising stream twice (thrice when deep),
+    # the second round in reverse order, so each is parsed after — and while — different other streams
+    st = sticky_cases(C)
+    rounds = [st, st[::-1]] + ([st[len(st) // 2:] + st[:len(st) // 2]] if ctx.deep else [])
+    k = 0
+    for rnd in rounds:
+        for case in rnd:
+            path = os.path.join(workdir, f's{k}.bin')
+            with open(path, 'wb') as f:
+                f.write(case['data'])
+            sample.append((case, [], 0, path))
+            k += 1
+    ctx.extra['tap_tests_in_one_meson_test_run'] = len(sample)
     mb = ["project('c18bytes')", f"py = find_program('{sys.executable}')"]
     for i, (case, spec, rc, path) in enumerate(sample):
         mb.append(f"test('t{i}', py, args: ['{os.path.join(workdir, 'emit.py')}', '{path}', '{json.dumps(spec)}', '{rc}'], protocol: 'tap')")
@@ -598,6 +635,8 @@ def run_b(C, M, ctx: Ctx, limit: int, workdir: str, jobs) -> None:
             msg = 'stdout recorded in testlog.json differs from the bytes the program wrote'
         elif bool(j['is_fail']) != bad:
             msg = f'meson test reported {j["result"]} (is_fail={j["is_fail"]}), subtests/errors/exit status say bad={bad}'
+        elif not any(len(bl.raw) + 2 > limit for bl in case['lines']) and j['result'] not in result_class(want, rc):
+            msg = f'meson test reported {j["result"]}, subtests/errors/exit status call for {sorted(result_class(want, rc))}'
         elif f't{i}' in suites and len(want['tests']) > 0 and len(suites[f't{i}']) != len(want['tests']):
             msg = f'junit lists {len(suites[f"t{i}"])} subtests for {len(want["tests"])} test lines'
         if msg:
